@@ -146,6 +146,8 @@ class World:
         listers = s.listers
         i = 0
         getinst = Node.get_node_instance
+        nscache = {}
+        h_of_get = self.h_of.get
         swept = False
         while True:
             if i >= len(nodes):
@@ -170,7 +172,9 @@ class World:
                 ch = []
                 for c in kids:
                     if isinstance(c, Node):
-                        hc = self.handle(c, ow)
+                        hc = h_of_get(id(c))
+                        if hc is None:
+                            hc = self.handle(c, ow)
                         ch.append(hc)
                         l = listers.get(hc)
                         if l is None:
@@ -201,9 +205,13 @@ class World:
             except Exception:       # noqa: BLE001
                 reg = False
             nsm = n.nsmap
-            # prefix order matters to what the exporters print; kept apart from the by-value view
-            nso = tuple(nsm) if type(nsm) is dict and len(nsm) > 1 else ()
-            cells.append((ch, ph, _ns_items(nsm), fields, reg, nso))
+            # one dictionary object is usually shared by many nodes: compute its view once per snapshot
+            hit = nscache.get(id(nsm))
+            if hit is None:
+                # prefix order matters to what the exporters print; kept apart from the by-value view
+                nso = tuple(nsm) if type(nsm) is dict and len(nsm) > 1 else ()
+                hit = nscache[id(nsm)] = (_ns_items(nsm), nso)
+            cells.append((ch, ph, hit[0], fields, reg, hit[1]))
             i += 1
         if isinstance(store, dict):
             h_of = self.h_of
